@@ -22,6 +22,7 @@ type Profile struct {
 	MaxBudget   int
 	BigBurst    bool  // allow bursts > 4096 (crossing the batch size)
 	Spins       []int // choices for Spec.Spin (nil = never spin)
+	WChain      int   // weight of "chain" sends (the receiver feeds itself: many consecutive one-message batches)
 }
 
 // Gen draws a raw history; Normalize makes it executable.
@@ -63,6 +64,7 @@ func Gen(t *rapid.T, p Profile) Spec {
 	add("stop", p.WStop)
 	add("respawn", p.WRespawn)
 	add("burst", p.WBurst)
+	add("chain", p.WChain)
 	n := rapid.IntRange(1, p.MaxOps).Draw(t, "nops")
 	for i := 0; i < n; i++ {
 		k := rapid.SampledFrom(kinds).Draw(t, "op")
@@ -72,6 +74,8 @@ func Gen(t *rapid.T, p Profile) Spec {
 		case "panic":
 			s.Ops = append(s.Ops, Op{K: "send", Panic: true, GateNext: rapid.IntRange(0, 3).Draw(t, "gate_next") == 0, From: rapid.IntRange(0, 3).Draw(t, "from"),
 				Internal: rapid.IntRange(0, 5).Draw(t, "internal") == 0})
+		case "chain":
+			s.Ops = append(s.Ops, Op{K: "send", Chain: rapid.SampledFrom([]int{3, 40, 305, 330}).Draw(t, "chain"), From: rapid.IntRange(0, 3).Draw(t, "from")})
 		case "burst":
 			max := 40
 			if p.BigBurst && rapid.IntRange(0, 7).Draw(t, "big") == 0 {
@@ -105,10 +109,14 @@ func Normalize(raw Spec, dropOrphans bool) (Spec, int) {
 				op.ID = next
 				if op.N > 1 {
 					op.Panic, op.GateNext, op.Internal = false, false, false
+					op.Chain = 0
 					next += op.N
 				} else {
 					op.N = 0
-					next++
+					if op.Panic {
+						op.Chain = 0
+					}
+					next += 1 + op.Chain
 				}
 				if !op.Panic {
 					op.GateNext, op.Internal = false, false
